@@ -436,3 +436,78 @@ func init() {
 		mc.Register("C02", "l2-restart-terminated/"+RoleNames[r], "both", func(x *mc.Cell) { c10Local(x, r); c10Incoming(x, r) })
 	}
 }
+
+// c10ReplayThenRestart: the receiving side restarts, the restarted transport request re-reports blocks the node
+// already holds (non-unique, lower positions), and the channel is restarted again (optionally on a new manager
+// over the same store). Oracle: the recorded progress (received block index and bytes) is the same after every
+// step, and the second restart hands the transport a channel state that still records all blocks received -
+// so the sender is told to skip exactly that many.
+func c10ReplayThenRestart(x *mc.Cell) {
+	for _, r := range []Role{CreatedPull, ReceivedPush} {
+		for _, newMgr := range []bool{false, true} {
+			r, newMgr := r, newMgr
+			rep := map[string]any{"role": RoleNames[r], "new-manager-before-second-restart": newMgr}
+			run(x, "C10", Opts{Types: []string{"T"}}, rep, func(n *Node) {
+				chid := Setup(n, r, "ongoing-data") // two blocks received: index 2, 30 bytes
+				v0, _ := n.Vec(chid)
+				restart := func(n *Node) {
+					if r.Created() {
+						_ = n.Mgr.RestartDataTransferChannel(context.Background(), chid)
+						mc.Wait()
+					} else {
+						v := doubles.Voucher("T", "v")
+						n.RecvRequest(doubles.PeerB, NewReq(uint64(chid.ID), true, false, &v))
+					}
+				}
+				check := func(n *Node, step string) bool {
+					v, err := n.Vec(chid)
+					if err != nil {
+						panic(err)
+					}
+					if v.RIdx != v0.RIdx || v.Received != v0.Received {
+						x.Violate("C10", fmt.Sprintf("replay-then-restart;recorded-progress-altered;step=%s;role=%s", step, RoleNames[r]),
+							fmt.Sprintf("after %s the channel records index %d / %d bytes received, before the restarts it recorded %d / %d", step, v.RIdx, v.Received, v0.RIdx, v0.Received), rep)
+						return false
+					}
+					return true
+				}
+				restart(n)
+				if !check(n, "the first restart") {
+					return
+				}
+				_ = n.H().OnDataReceived(chid, Root(), 10, 1, false)
+				mc.Wait()
+				if !check(n, "the replay of block 1") {
+					return
+				}
+				if newMgr {
+					img := n.DS.Image()
+					n.Stop()
+					n2, err := NewNode(Opts{DS: doubles.NewRecDSFrom(img), Types: []string{"T"}})
+					if err != nil {
+						panic(err)
+					}
+					defer n2.Stop()
+					n = n2
+				}
+				mk := n.Mark()
+				restart(n)
+				d := n.Since(mk)
+				x.Premise++
+				if !check(n, "the second restart") {
+					return
+				}
+				for _, tc := range d.TCalls {
+					if tc.Op == "open" && tc.Chid == chid && tc.Channel != nil && tc.Channel.ReceivedCidsTotal() != v0.RIdx {
+						x.Violate("C10", fmt.Sprintf("replay-then-restart;skip-count;role=%s", RoleNames[r]), fmt.Sprintf("the second restart opens the transport with a channel state that records %d blocks received, the channel had recorded %d", tc.Channel.ReceivedCidsTotal(), v0.RIdx), rep)
+					}
+				}
+				x.Outcome(fmt.Sprintf("%s|%v", RoleNames[r], newMgr))
+			})
+		}
+	}
+}
+
+func init() {
+	mc.Register("C10", "replay-then-second-restart", "both", c10ReplayThenRestart)
+}
